@@ -14,6 +14,10 @@ func init() {
 			*l = append(*l, &Job{Pkg: "", Func: "ZZ_C11_AfterClose", Args: []int64{2, (entry + arg) % 2, entry, arg, (entry + arg + 1) % 2}, Bounds: b})
 			thorough = append(thorough, &Job{Pkg: "", Func: "ZZ_C11_AfterClose", Args: []int64{1, (entry + arg + 1) % 2, entry, arg, 1}, Bounds: b})
 		}
+		// net.Error close arguments (timeout, wrapped timeout, other)
+		quick = append(quick, &Job{Pkg: "", Func: "ZZ_C11_AfterClose", Args: []int64{(entry % 2) * 2, 1, entry, 3 + entry%3, entry % 2}, Bounds: b + "; Close argument: timeout net.Error / wrapped timeout / other net.Error"})
+		thorough = append(thorough, &Job{Pkg: "", Func: "ZZ_C11_AfterClose", Args: []int64{((entry + 1) % 2) * 2, 0, entry, 3 + (entry+1)%3, 1}, Bounds: b})
+		thorough = append(thorough, &Job{Pkg: "", Func: "ZZ_C11_AfterClose", Args: []int64{1, 1, entry, 3 + (entry+2)%3, 0}, Bounds: b})
 		// the parent context ends before Close (pre bit 1)
 		quick = append(quick, &Job{Pkg: "", Func: "ZZ_C11_AfterClose", Args: []int64{(entry % 2) * 2, entry % 2, entry, entry % 3, 2 + entry%2}, Bounds: b + "; the channel's parent context is cancelled before Close"})
 		thorough = append(thorough, &Job{Pkg: "", Func: "ZZ_C11_AfterClose", Args: []int64{((entry + 1) % 2) * 2, 1, entry, (entry + 1) % 3, 3 - entry%2}, Bounds: b + "; the channel's parent context is cancelled before Close"})
